@@ -658,6 +658,22 @@ func runC11(r *Report) {
 		}
 		nDisc++
 		cmp := 0
+		// values the function compares with the identity stand for it (`if *code.ActivatedBy != clientID
+		// { refuse }` followed by `mapping.ListenClientID != *code.ActivatedBy`): one step of transitivity
+		alias := map[string]bool{}
+		Instrs(f, func(in ssa.Instruction) {
+			bo, ok := in.(*ssa.BinOp)
+			if !ok || (bo.Op != token.EQL && bo.Op != token.NEQ) {
+				return
+			}
+			for _, pair := range [][2]ssa.Value{{bo.X, bo.Y}, {bo.Y, bo.X}} {
+				if identityDerived(pair[1]) {
+					if o := originSummary(pair[0]); o != "" && !strings.HasPrefix(o, "const:") {
+						alias[o] = true
+					}
+				}
+			}
+		})
 		Instrs(f, func(in ssa.Instruction) {
 			bo, ok := in.(*ssa.BinOp)
 			if !ok || (bo.Op != token.EQL && bo.Op != token.NEQ) {
@@ -665,7 +681,7 @@ func runC11(r *Report) {
 			}
 			for _, pair := range [][2]ssa.Value{{bo.X, bo.Y}, {bo.Y, bo.X}} {
 				po := originSummary(pair[0])
-				if (strings.Contains(po, "PortMapping.ListenClientID") || strings.Contains(po, "PortMapping.TargetClientID")) && identityDerived(pair[1]) {
+				if (strings.Contains(po, "PortMapping.ListenClientID") || strings.Contains(po, "PortMapping.TargetClientID")) && (identityDerived(pair[1]) || alias[originSummary(pair[1])]) {
 					cmp++
 					if os.Getenv("TV_DEBUG") != "" {
 						fmt.Fprintln(os.Stderr, "DEBUG cmp", short, po, "|", originSummary(pair[1]))
